@@ -514,7 +514,21 @@ func itoa(i int) string {
 
 var errorType = types.Universe.Lookup("error").Type()
 
-func isErrorType(t types.Type) bool { return types.Identical(t, errorType) }
+func isErrorType(t types.Type) (res bool) {
+	if t == nil {
+		return false
+	}
+	if _, isTuple := t.(*types.Tuple); isTuple {
+		return false
+	}
+	// values such as builtins carry placeholder types that go/types cannot compare
+	defer func() {
+		if recover() != nil {
+			res = false
+		}
+	}()
+	return types.Identical(t, errorType)
+}
 
 // errResultIndex returns the index of the (last) error result of f, or -1.
 func errResultIndex(f *ssa.Function) int {
